@@ -42,6 +42,14 @@ func main() {
 		cmdVerify(os.Args[2:])
 	case "list":
 		cmdList(os.Args[2:])
+	case "lemmas":
+		st := NewSymtab()
+		obs := lemmaObligations()
+		cfg := &SolverCfg{QuickTimeout: 5 * time.Second, FullTimeout: 30 * time.Second, NoCache: true}
+		DischargeAll(obs, st, cfg, runtime.NumCPU())
+		for _, o := range obs {
+			fmt.Printf("%-7s %-6s %6.2fs %s\n", o.Result, o.Solver, o.TimeS, o.Name)
+		}
 	case "check":
 		os.Exit(cmdCheck(os.Args[2:]))
 	case "replay":
@@ -129,7 +137,7 @@ func cmdVerify(args []string) {
 					fmt.Println("        ", firstLines(o.Stdout, 2))
 				}
 			}
-			if *dump != "" && strings.Contains(o.Name, *dump) {
+			if *dump != "" && strings.HasSuffix(o.Name, *dump) {
 				os.WriteFile("/var/tmp/vscratch/dump.smt2", []byte(o.Query(st)), 0o644)
 				fmt.Println("dumped", o.Name, "to /var/tmp/vscratch/dump.smt2")
 				if o.Model != "" {
@@ -177,3 +185,5 @@ func cmdReplay(args []string) int {
 	fmt.Println(string(b))
 	return 0
 }
+
+
